@@ -933,7 +933,8 @@ def gen_c19(seed, tier):
         elif k == "entities":
             e.update({"s": s, "via": r.pick(["entities", "issuers", "sources", "receivers"])})
         elif k == "stale":
-            e.update({"s": s, "sources": r.pick([None, None, r.sample(sources, 2)])})
+            # (no argument, an explicit empty list - "everything" as well -, or the sources the caller cares about)
+            e.update({"s": s, "sources": r.pick([None, None, [], [], r.sample(sources, 1), r.sample(sources, 2)])})
         elif k == "subjects":
             e.update({"via_pop": r.chance(0.5)})
         elif k == "jump":
